@@ -451,7 +451,7 @@ func (P *Prog) specInfo(sf *SpecFunc) (*specInfo, error) {
 	if body.T.Sort != rs {
 		return nil, fmt.Errorf("spec %s: body has sort %s, declared %s", sf.Name, body.T.Sort, rs)
 	}
-	recursive := containsSym(body.T.S, si.sym) || strings.Contains(body.T.S, "(forall ") || strings.Contains(body.T.S, "(exists ")
+	recursive := containsSym(body.T.S, si.sym) || strings.Contains(body.T.S, "(forall ") || strings.Contains(body.T.S, "(exists ") || sf.Opaque
 	if len(ps) == 0 {
 		m.decl = fmt.Sprintf("(declare-const %s %s)", si.sym, rs)
 		m.axioms = []string{fmt.Sprintf("(assert (= %s %s))", si.sym, body.T.S)}
